@@ -419,3 +419,37 @@ Example resolution_example :
   /\ skipped RunOnly runner [Some g1; Some g2; None; Some g3] (Some b) = true
   /\ skipped RunNo runner [Some g1; Some g2; None; Some g3] None = true.
 Proof. repeat split; reflexivity. Qed.
+
+(** The specification-only effective options are what the model resolves. *)
+Lemma spec_effective_correct (runner : options) (groups : list (option options)) (bench : option options) :
+  spec_effective runner groups bench = resolve runner groups bench.
+Proof.
+  unfold spec_effective.
+  rewrite <- (resolve_proj o_sample_count (fun a b => eq_refl)).
+  rewrite <- (resolve_proj o_sample_size (fun a b => eq_refl)).
+  rewrite <- (resolve_proj o_threads (fun a b => eq_refl)).
+  rewrite <- (resolve_proj o_min_time (fun a b => eq_refl)).
+  rewrite <- (resolve_proj o_max_time (fun a b => eq_refl)).
+  rewrite <- (resolve_proj o_skip_ext_time (fun a b => eq_refl)).
+  rewrite <- (resolve_proj o_ignore (fun a b => eq_refl)).
+  rewrite <- (resolve_proj (fun o => cs_bytes (o_counters o)) (fun a b => eq_refl)).
+  rewrite <- (resolve_proj (fun o => cs_chars (o_counters o)) (fun a b => eq_refl)).
+  rewrite <- (resolve_proj (fun o => cs_cycles (o_counters o)) (fun a b => eq_refl)).
+  rewrite <- (resolve_proj (fun o => cs_items (o_counters o)) (fun a b => eq_refl)).
+  destruct (resolve runner groups bench) as [sc ss th [cb cc cy ci] mn mx se ig]. reflexivity.
+Qed.
+
+Lemma spec_runner_correct (before flags env after : options) :
+  spec_runner before flags env after = runner_level before flags env after.
+Proof.
+  unfold spec_runner, runner_level.
+  destruct (norm_threads before) as [sc1 ss1 th1 [cb1 cc1 cy1 ci1] mn1 mx1 se1 ig1].
+  destruct (norm_threads flags) as [sc2 ss2 th2 [cb2 cc2 cy2 ci2] mn2 mx2 se2 ig2].
+  destruct (norm_threads env) as [sc3 ss3 th3 [cb3 cc3 cy3 ci3] mn3 mx3 se3 ig3].
+  destruct (norm_threads after) as [sc4 ss4 th4 [cb4 cc4 cy4 ci4] mn4 mx4 se4 ig4].
+  cbn [overwrite cs_overwrite o_sample_count o_sample_size o_threads o_counters o_min_time o_max_time
+       o_skip_ext_time o_ignore cs_bytes cs_chars cs_cycles cs_items map first_some].
+  f_equal; try (f_equal);
+    repeat match goal with |- context [match ?x with Some _ => _ | None => _ end] => destruct x; cbn [opt_or first_some] end;
+    reflexivity.
+Qed.
